@@ -34,8 +34,7 @@ Record out_inv (s : state) : Prop := mkOutInv {
   oi_nodup : NoDup (srcs (pipeline s));
   oi_cover : forall c, In c (map fst (assigned s)) -> In c (srcs (pipeline s)) \/ writer s = WDead;
   oi_wire : exists tail, wire s = flat_map chunks_of (out s) ++ tail /\ tail_ok (writer s) tail;
-  oi_payload : forall o, writer s = WPayload o ->
-               (f_typ (o_frame o) =? T_CloseConnection) || (f_len (o_frame o) =? 0) = false;
+  oi_payload : forall o, writer s = WPayload o -> (f_len (o_frame o) =? 0) = false;
   oi_sendable : forall c p, lookup c (callers s) = Some p -> sendable p
 }.
 
@@ -124,10 +123,8 @@ Qed.
 Lemma stamp_ok : forall cfg cs asg v o, req_frame_ok cs asg o -> req_frame_ok cs asg (stamp_o cfg v o).
 Proof. intros cfg cs asg v o H. exact H. Qed.
 
-Lemma chunks_of_stamp : forall cfg v o,
-  (f_typ (o_frame (stamp_o cfg v o)) =? T_CloseConnection) || (f_len (o_frame (stamp_o cfg v o)) =? 0) =
-  (f_typ (o_frame o) =? T_CloseConnection) || (f_len (o_frame o) =? 0).
-Proof. reflexivity. Qed.
+Lemma after_frame_cases : forall o, after_frame o = WParked \/ after_frame o = WTop.
+Proof. intros. unfold after_frame. destruct (f_typ _ =? _); auto. Qed.
 
 Lemma out_inv_step : forall cfg s e,
   core_inv cfg s -> ack_inv s -> out_inv s -> out_inv (step cfg s e).
@@ -208,28 +205,25 @@ Proof.
     { intros c0 Hin. destruct (C c0 Hin) as [H|H]; [|discriminate]. left.
       rewrite srcs_app in *. now rewrite Hsr. }
     assert (Hnd : NoDup (srcs (out s ++ [o']))) by (rewrite srcs_app in *; now rewrite Hsr).
-    destruct ((f_typ (o_frame o') =? T_CloseConnection)) eqn:Ecc.
-    + constructor; unfold pipeline; st_simpl_goal; cbn [held]; rewrite ?app_nil_r; try assumption; try (intros; discriminate).
+    destruct (f_len (o_frame o') =? 0) eqn:El.
+    + destruct (after_frame_cases o') as [E|E]; rewrite E;
+        (constructor; unfold pipeline; st_simpl_goal; cbn [held]; rewrite ?app_nil_r; try assumption; try (intros; discriminate);
+         [ intros c0 Hin; destruct (Hcov c0 Hin) as [H|[]]; now left
+         | exists []; split; [|reflexivity]; rewrite flat_map_app, Hw, app_nil_r; cbn [flat_map]; rewrite app_nil_r;
+           unfold chunks_of; rewrite El; reflexivity ]).
+    + constructor; unfold pipeline; st_simpl_goal; cbn [held]; try assumption; try (intros; discriminate).
       * intros c0 Hin. destruct (Hcov c0 Hin) as [H|[]]. now left.
-      * exists []. split; [|reflexivity]. rewrite flat_map_app, Hw, app_nil_r. cbn [flat_map]. rewrite app_nil_r.
-        unfold chunks_of. rewrite Ecc. reflexivity.
-    + destruct (f_len (o_frame o') =? 0) eqn:El.
-      * constructor; unfold pipeline; st_simpl_goal; cbn [held]; rewrite ?app_nil_r; try assumption; try (intros; discriminate).
-        -- intros c0 Hin. destruct (Hcov c0 Hin) as [H|[]]. now left.
-        -- exists []. split; [|reflexivity]. rewrite flat_map_app, Hw, app_nil_r. cbn [flat_map]. rewrite app_nil_r.
-           unfold chunks_of. rewrite Ecc, El. reflexivity.
-      * constructor; unfold pipeline; st_simpl_goal; cbn [held]; try assumption; try (intros; discriminate).
-        -- intros c0 Hin. destruct (Hcov c0 Hin) as [H|[]]. now left.
-        -- exists [CHdr o']. split; [now rewrite Hw|reflexivity].
-        -- intros o0 Ho. inversion Ho; subst. fold o'. rewrite Ecc, El. reflexivity.
+      * exists [CHdr o']. split; [now rewrite Hw|reflexivity].
+      * intros o0 Ho. inversion Ho; subst. fold o'. exact El.
   - (* WWritePay *) cbn [step]. unfold step_wwritepay.
     destruct (writer s) as [| | | |o| | |] eqn:Ew; try assumption.
     destruct Hinv as [F N C W P S]. unfold pipeline in *. rewrite Ew in *. cbn [held] in *.
     destruct W as (tail & Hw & Ht). cbn in Ht. subst tail.
-    constructor; unfold pipeline; st_simpl_goal; cbn [held]; rewrite ?app_nil_r; try assumption; try (intros; discriminate).
-    + intros c0 Hin. destruct (C c0 Hin) as [H|H]; [now left|discriminate].
-    + exists []. split; [|reflexivity]. rewrite flat_map_app, Hw, app_nil_r. cbn [flat_map]. rewrite app_nil_r.
-      unfold chunks_of. rewrite (P o eq_refl). rewrite <- app_assoc. reflexivity.
+    destruct (after_frame_cases o) as [E|E]; rewrite E;
+      (constructor; unfold pipeline; st_simpl_goal; cbn [held]; rewrite ?app_nil_r; try assumption; try (intros; discriminate);
+       [ intros c0 Hin; destruct (C c0 Hin) as [H|H]; [now left|discriminate]
+       | exists []; split; [|reflexivity]; rewrite flat_map_app, Hw, app_nil_r; cbn [flat_map]; rewrite app_nil_r;
+         unfold chunks_of; rewrite (P o eq_refl); rewrite <- app_assoc; reflexivity ]).
   - (* WriteFail *) cbn [step]. unfold step_writefail. pose proof Hinv as Hcopy.
     destruct Hinv as [F N C W P S]. unfold pipeline in *.
     destruct (writer s) as [| | |o|o| | |] eqn:Ew; try exact Hcopy; cbn [held] in *.
